@@ -32,6 +32,7 @@ type Violation struct {
 	What     string          `json:"what"`
 	Spec     json.RawMessage `json:"spec"`
 	Detail   interface{}     `json:"detail,omitempty"`
+	Index    int             `json:"index,omitempty"` // 1 + index of the scenario in the enumeration (set by the parent)
 }
 
 // Ctx collects what one scenario execution covered.
@@ -205,6 +206,9 @@ type wctx struct {
 }
 
 // WorkerMain runs shard k of n and reports over fd 3.
+// WorkerUpto: when >= 0 the worker stops after the scenario with this index (re-execution in worker order).
+var WorkerUpto = -1
+
 func WorkerMain(chk *Check, tier string, seed, k, n, from int, deadline time.Time, statesFile string) {
 	out := os.NewFile(3, "proto")
 	if out == nil {
@@ -217,6 +221,9 @@ func WorkerMain(chk *Check, tier string, seed, k, n, from int, deadline time.Tim
 	for i := k; i < len(specs); i += n {
 		if i < from {
 			continue
+		}
+		if WorkerUpto >= 0 && i > WorkerUpto {
+			break
 		}
 		if time.Now().After(deadline) {
 			c.Extra["budget_hit"] = 1
@@ -364,6 +371,7 @@ func ParentMain(chk *Check, tier string, seed int) int {
 	if nw > len(specs) {
 		nw = len(specs)
 	}
+	numWorkers = nw
 	a := &agg{outcomes: map[string]int64{}, extra: map[string]int64{}}
 	var mu sync.Mutex
 	var wg sync.WaitGroup
@@ -480,6 +488,9 @@ func runWorker(exe string, chk *Check, tier string, seed, k, n, from int, deadli
 			for k, v := range m.Ctx.Extra {
 				a.extra[k] += v
 			}
+			for vi := range m.Ctx.Viol {
+				m.Ctx.Viol[vi].Index = m.I + 1
+			}
 			a.viol = append(a.viol, m.Ctx.Viol...)
 			if len(a.samples) < 3 {
 				a.samples = append(a.samples, m.Ctx.Samples...)
@@ -592,6 +603,10 @@ func finish(chk *Check, tier string, seed int, start time.Time, nspecs int, a *a
 				// the same scenario fails again, but not every time or not in the same way: the behaviour of the code under
 				// test is not deterministic (on a tree where the property holds no execution of the scenario fails at all)
 				v.What += fmt.Sprintf(" [not deterministic: of 3 re-executions of this scenario %d failed, %d in the same way]", anyViol, same)
+			case v.Index > 0 && reproducesInWorkerOrder(chk, tier, seed, v):
+				// alone in a fresh process the scenario passes, after the scenarios its worker process executed before it
+				// fails again: the code under test carries state from run to run at package level
+				v.What += " [fails again when the scenarios executed before it in the same process are executed first, passes alone in a fresh process: results depend on state the code keeps at package level between runs]"
 			default:
 				fmt.Fprintf(os.Stderr, "HARNESS-ERROR: violation %s class=%s did not reproduce in any of 3 re-executions; not reported\n", chk.ID, v.Class)
 				return 2
@@ -652,7 +667,53 @@ func writeReplay(v Violation) string {
 	return p
 }
 
-// reproduces re-executes the scenario n times in fresh subprocesses and requires the same class each time.
+var numWorkers int
+
+// reproducesInWorkerOrder re-executes, in one fresh process, the scenarios the violation's worker process had executed
+// before it (same order) and then the scenario itself.
+func reproducesInWorkerOrder(chk *Check, tier string, seed int, v Violation) bool {
+	if numWorkers <= 0 {
+		return false
+	}
+	idx := v.Index - 1
+	pr, pw, err := os.Pipe()
+	if err != nil {
+		return false
+	}
+	exe, _ := os.Executable()
+	sf := filepath.Join(Scratch(), "recheck-states")
+	cmd := exec.Command(exe, chk.ID, "--tier", tier, "--seed", strconv.Itoa(seed), "--worker", fmt.Sprintf("%d/%d", idx%numWorkers, numWorkers),
+		"--from", "0", "--upto", strconv.Itoa(idx), "--deadline", strconv.FormatInt(time.Now().Add(2*time.Hour).UnixNano(), 10), "--states", sf)
+	cmd.ExtraFiles = []*os.File{pw}
+	cmd.Env = append(os.Environ(), "GOMAXPROCS=2")
+	if err := cmd.Start(); err != nil {
+		pw.Close()
+		pr.Close()
+		return false
+	}
+	pw.Close()
+	found := false
+	sc := bufio.NewScanner(pr)
+	sc.Buffer(make([]byte, 1<<20), 1<<28)
+	for sc.Scan() {
+		var m wmsg
+		if json.Unmarshal(sc.Bytes(), &m) != nil {
+			continue
+		}
+		if m.T == "end" && m.I == idx && m.Ctx != nil {
+			for _, got := range m.Ctx.Viol {
+				if got.Class == v.Class {
+					found = true
+				}
+			}
+		}
+	}
+	pr.Close()
+	cmd.Wait()
+	os.Remove(sf)
+	return found
+}
+
 // reproduces re-executes the scenario n times in fresh processes: same = runs that failed with the same class,
 // anyViol = runs that failed at all.
 func reproduces(chk *Check, tier string, seed int, v Violation, n int) (same, anyViol int) {
